@@ -262,7 +262,7 @@ class _:
         "no-at": "no_block_start(old(CUR()), CUR())",
     }, "decreases": "2 * (NMARKS() - CUR()) + (1 if midx(self._unaccepted_mark) >= 0 else 0)", "props": ("C01", "C02", "C03", "C04")}}
     ensures = {
-        "C02.closed": "exists(r, old(CUR()) <= r < NMARKS(), mk(r) == 2 and CUR() == r + 1 and result[1] == me(r)) and midx(self._unaccepted_mark) == -1 and scan(self)",
+        "C02.closed": "exists(r, old(CUR()) <= r < NMARKS(), mk(r) == 2 and CUR() == r + 1 and result[1] == me(r) and self._current_char_index == ms(r)) and midx(self._unaccepted_mark) == -1 and scan(self)",
         "C02.fields": "fresh(result[0]) and fresh(result[2]) and forall(i, 0 <= i < len(result[0]), fresh(result[0][i]) and field_at(result[0][i], self, ghost('fe', i), ghost('fr', i), ghost('fks', i)) and old(CUR()) <= ghost('fe', i) and ghost('fr', i) < CUR() and key_start_ok(i, first_key_start))",
         "C04.no-at-consumed": "no_block_start(old(CUR()), CUR())",
     }
@@ -272,3 +272,109 @@ class _:
             "C04.handback-or-eof": "scan(self) and ((midx(self._unaccepted_mark) >= old(CUR()) and CUR() == midx(self._unaccepted_mark) + 1 and no_block_start(old(CUR()), midx(self._unaccepted_mark)) and isint(exc.end_index) and ival(exc.end_index) == ms(midx(self._unaccepted_mark))) or (midx(self._unaccepted_mark) == -1 and CUR() == NMARKS() and no_block_start(old(CUR()), NMARKS()) and isint(exc.end_index) and ival(exc.end_index) == BLEN()))",
         }}}
     modifies = ["@self._unaccepted_mark", "@self._current_char_index", "@self._current_line", "ghost:cur:int", "ghost:fe:arr", "ghost:fr:arr", "ghost:fks:arr"]
+
+
+# ---- block handlers ---------------------------------------------------------------------------------------------
+# each is entered right after split() consumed the '@type' mark a = CUR() - 1; by A-RE (R4) the next mark is the
+# '{' that directly follows it, so the "regex mismatch" branches are dead code: proved by the `raises` clauses.
+
+@pred
+def at_block_start(self):
+    return (scan(self) and midx(self._unaccepted_mark) == -1 and not isnone(self._markiter) and CUR() >= 1 and mk(CUR() - 1) == 7
+            and self._current_char_index == ms(CUR() - 1))
+
+
+@pred
+def closed_at(a, r):
+    """r is the '}' that closes the '{' at mark a + 1 (the first one at balance 0), with no '@' mark in between"""
+    return (a + 2 <= r < NMARKS() and mk(r) == 2 and bal(a + 2, r) == 0 and no_close_before(a + 2, r) and no_block_start(a + 2, r))
+
+
+@pred
+def aborted_after(self, a, exc):
+    """a block handler gave up: either at a new '@' mark, which is handed back and is where the failed block ends,
+    or at the end of the text; no '@' mark after a was consumed"""
+    return (scan(self) and isint(exc.end_index)
+            and ((midx(self._unaccepted_mark) > a and CUR() == midx(self._unaccepted_mark) + 1 and no_block_start(a + 1, midx(self._unaccepted_mark))
+                  and ival(exc.end_index) == ms(midx(self._unaccepted_mark)))
+                 or (midx(self._unaccepted_mark) == -1 and CUR() == NMARKS() and no_block_start(a + 1, NMARKS()) and ival(exc.end_index) == BLEN())))
+
+
+@contract(S + "_handle_explicit_comment")
+class _:
+    """@comment{...}: the block ends at the '}' matching the opening '{'; raw is the text from the '@' to that '}'
+    inclusive, the comment the stripped text between the braces, the line that of the '@'"""
+    uses_marks = True
+    sorts = {"self": "ref:Splitter", "result": "ref:ExplicitComment"}
+    requires = {"at-block-start": "at_block_start(self)"}
+    ensures = {
+        "C02.comment-block": "fresh(result) and exists(r, 0 <= r < NMARKS(), closed_at(old(CUR()) - 1, r) and CUR() == r + 1 and self._current_char_index == ms(r) and isstr(result._raw) and sval(result._raw) == self.bibstr[ms(old(CUR()) - 1):ms(r) + 1] and result._comment == self.bibstr[me(old(CUR())):ms(r)].strip())",
+        "C03.start-line": "isint(result._start_line_in_file) and ival(result._start_line_in_file) == nls(0, old(CUR()) - 1) - 1",
+        "C04.scan": "scan(self) and midx(self._unaccepted_mark) == -1",
+    }
+    raises = {"BlockAbortedException": {"when": None, "ensures": {"C04.aborted": "aborted_after(self, old(CUR()) - 1, exc)"}}}
+    modifies = ["@self._unaccepted_mark", "@self._current_char_index", "@self._current_line", "ghost:cur:int"]
+
+
+@contract(S + "_handle_preamble")
+class _:
+    """@preamble{...}: as for @comment; the value is the text between the braces, verbatim"""
+    uses_marks = True
+    sorts = {"self": "ref:Splitter", "result": "ref:Preamble"}
+    requires = {"at-block-start": "at_block_start(self)"}
+    ensures = {
+        "C02.preamble-block": "fresh(result) and exists(r, 0 <= r < NMARKS(), closed_at(old(CUR()) - 1, r) and CUR() == r + 1 and self._current_char_index == ms(r) and isstr(result._raw) and sval(result._raw) == self.bibstr[ms(old(CUR()) - 1):ms(r) + 1] and result._value == self.bibstr[me(old(CUR())):ms(r)])",
+        "C03.start-line": "isint(result._start_line_in_file) and ival(result._start_line_in_file) == nls(0, old(CUR()) - 1) - 1",
+        "C04.scan": "scan(self) and midx(self._unaccepted_mark) == -1",
+    }
+    raises = {"BlockAbortedException": {"when": None, "ensures": {"C04.aborted": "aborted_after(self, old(CUR()) - 1, exc)"}}}
+    modifies = ["@self._unaccepted_mark", "@self._current_char_index", "@self._current_line", "ghost:cur:int"]
+
+
+@contract(S + "_handle_string")
+class _:
+    """@string{key = value}: the mark after '{' must be '='; the key is the stripped text between them, the value the
+    stripped text from the '=' to the '}' matching the opening '{'"""
+    uses_marks = True
+    sorts = {"self": "ref:Splitter", "m": "match", "result": "ref:String"}
+    requires = {"at-block-start": "at_block_start(self)", "m": "midx(m) == CUR() - 1"}
+    ensures = {
+        "C02.string-block": "fresh(result) and exists(e, old(CUR()) < e < NMARKS(), mk(e) == 5 and only_newlines(old(CUR()) + 1, e) and exists(r, e < r < NMARKS(), mk(r) == 2 and bal(e + 1, r) == 0 and no_close_before(e + 1, r) and no_block_start(old(CUR()), r) and CUR() == r + 1 and self._current_char_index == ms(r) and isstr(result._raw) and sval(result._raw) == self.bibstr[ms(old(CUR()) - 1):ms(r) + 1] and result._key == self.bibstr[me(old(CUR()) - 1) + 1:ms(e)].strip() and isstr(result._value) and sval(result._value) == self.bibstr[me(e):ms(r)].strip()))",
+        "C03.start-line": "isint(result._start_line_in_file) and ival(result._start_line_in_file) == nls(0, old(CUR()) - 1) - 1",
+        "C04.scan": "scan(self) and midx(self._unaccepted_mark) == -1",
+    }
+    raises = {"BlockAbortedException": {"when": None, "ensures": {"C04.aborted": "scan(self) and isint(exc.end_index) and ((midx(self._unaccepted_mark) > old(CUR()) - 1 and CUR() == midx(self._unaccepted_mark) + 1 and no_block_start(old(CUR()), midx(self._unaccepted_mark)) and ival(exc.end_index) == ms(midx(self._unaccepted_mark))) or (midx(self._unaccepted_mark) == -1 and CUR() == NMARKS() and no_block_start(old(CUR()), NMARKS()) and ival(exc.end_index) == BLEN()))"}}}
+    modifies = ["@self._unaccepted_mark", "@self._current_char_index", "@self._current_line", "ghost:cur:int"]
+
+
+@pred
+def entry_read(E, self, a, m_val, c):
+    """E is the entry read from the '@type' mark a; c is the first mark after the '{' that is not a newline (ghost
+    `ec`, recorded by ghost code).  Type and key are the stripped texts after '@' and after '{'; `@type{key}` has no
+    fields and ends at its '}' (c); `@type{key, f = v, ...}` (c a comma) has the fields read by the entry scanner
+    (ghost arrays fe / fr / fks) and ends at the '}' that closes it; raw runs from the '@' to that '}' inclusive"""
+    return (fresh(E) and E._entry_type == m_val[1:].strip()
+            and isint(E._start_line_in_file) and ival(E._start_line_in_file) == nls(0, a) - 1
+            and a + 2 <= c < CUR() and only_newlines(a + 2, c) and E._key == self.bibstr[me(a) + 1:ms(c)].strip()
+            and mk(CUR() - 1) == 2 and isstr(E._raw) and sval(E._raw) == self.bibstr[ms(a):me(CUR() - 1)]
+            and ((mk(c) == 2 and CUR() == c + 1 and len(E._fields) == 0)
+                 or (mk(c) == 4 and no_block_start(c + 1, CUR())
+                     and forall(i, 0 <= i < len(E._fields), fresh(E._fields[i]) and field_at(E._fields[i], self, ghost('fe', i), ghost('fr', i), ghost('fks', i))
+                                and c < ghost('fe', i) and ghost('fr', i) < CUR() and key_start_ok(i, me(c))))))
+
+
+@contract(S + "_handle_entry")
+class _:
+    """@type{key, field = value, ...}: an Entry (wrapped in a DuplicateFieldKeyBlock that exposes it when a field key
+    occurs twice); a mark other than ',' or '}' after the key aborts the block there"""
+    uses_marks = True
+    sorts = {"self": "ref:Splitter", "m": "match", "m_val": "str", "result": "ref:Block"}
+    requires = {"at-block-start": "at_block_start(self)", "m": "midx(m) == CUR() - 1", "m_val": "len(m_val) >= 1"}
+    ghost_code = [("comma_mark = self._next_mark(", [("ec", None, "midx(comma_mark)")])]
+    ensures = {
+        "C02.entry": "implies(cls_is(result, 'Entry'), entry_read(as_ref(result, 'ref:Entry'), self, old(CUR()) - 1, m_val, ghost('ec')))",
+        "C09.duplicate-fields-wrapper": "implies(not cls_is(result, 'Entry'), cls_is(result, 'DuplicateFieldKeyBlock') and fresh(result) and not isnone(as_ref(result, 'ref:DuplicateFieldKeyBlock')._ignore_error_block) and cls_is(as_ref(as_ref(result, 'ref:DuplicateFieldKeyBlock')._ignore_error_block, 'ref:Block'), 'Entry') and entry_read(as_ref(as_ref(result, 'ref:DuplicateFieldKeyBlock')._ignore_error_block, 'ref:Entry'), self, old(CUR()) - 1, m_val, ghost('ec')) and same(result._raw, as_ref(as_ref(result, 'ref:DuplicateFieldKeyBlock')._ignore_error_block, 'ref:Entry')._raw) and same(result._start_line_in_file, as_ref(as_ref(result, 'ref:DuplicateFieldKeyBlock')._ignore_error_block, 'ref:Entry')._start_line_in_file))",
+        "C04.scan": "scan(self) and midx(self._unaccepted_mark) == -1 and no_block_start(old(CUR()), CUR()) and self._current_char_index == ms(CUR() - 1) and mk(CUR() - 1) == 2",
+    }
+    raises = {"BlockAbortedException": {"when": None, "ensures": {"C04.aborted": "scan(self) and isint(exc.end_index) and ((midx(self._unaccepted_mark) > old(CUR()) - 1 and CUR() == midx(self._unaccepted_mark) + 1 and no_block_start(old(CUR()), midx(self._unaccepted_mark)) and ival(exc.end_index) == ms(midx(self._unaccepted_mark))) or (midx(self._unaccepted_mark) == -1 and CUR() == NMARKS() and no_block_start(old(CUR()), NMARKS()) and ival(exc.end_index) == BLEN()))"}}}
+    modifies = ["@self._unaccepted_mark", "@self._current_char_index", "@self._current_line", "@self._open_brackets", "ghost:cur:int", "ghost:fe:arr", "ghost:fr:arr", "ghost:fks:arr", "ghost:ec:int"]
